@@ -458,6 +458,7 @@ def hunt_rules(chk, repo):
         if not hits:
             chk.ok("C19.shortread", cl_.node, f"{cl_.name}: no fixed multi-byte token is matched against read(n)/readany() (line and delimiter reads use readline/readuntil/readexactly)")
     hunt2_rules(chk, repo)
+    hunt3_rules(chk, repo)
     # ---- C19.textsize: a text-mode file's byte size is its payload size only under the same codec (shared with C04) --------------------------
     textsize(chk, repo, "C19.size")
 
@@ -481,6 +482,80 @@ def textsize(chk, repo, rule):
             else:
                 chk.violation(rule + ".newline", r, "return super().size", "None (a text-mode stream cannot promise its encoded length)",
                               "TextIOPayload.size is the on-disk size whenever the codecs agree, but text mode also translates newlines and applies an error handler: a 10-byte CRLF file opened with open(p) writes 8 bytes under `Content-Length: 10` (the peer stalls), with errors='replace' 5 bytes go out under a size of 3; multipart part lengths are wrong the same way")
+
+
+def hunt3_rules(chk, repo):
+    """Rules written after the third defect hunt (F205-F207)."""
+    READS = ("read", "readany", "readline", "readchunk", "readexactly", "readuntil")
+    # ---- C19.cd.quoted: a quoted parameter value split at `;` is put together up to its closing quote ----------------------------------------------
+    pcd = repo.func(MP, "parse_content_disposition")
+    joins = [j for j in ast.walk(pcd.node) if isinstance(j, ast.JoinedStr) and any(isinstance(v, ast.Constant) and ";" in str(v.value) for v in j.values)
+             and any(isinstance(v, ast.FormattedValue) and "parts" in norm.raw(v.value) for v in j.values)]
+    if not joins:
+        chk.analysis_error("C19.cd.quoted: the re-join of a value that was split at `;` was not found in parse_content_disposition")
+    for j in joins:
+        lp = next(iter(K.loop_ancestors(j)), None)
+        inner = lp is not None and lp is not next((l for l in ast.walk(pcd.node) if isinstance(l, ast.While) and norm.raw(l.test) == "parts"), None) and "is_quoted" in norm.raw(lp.test if isinstance(lp, ast.While) else lp.iter)
+        if inner:
+            chk.ok("C19.cd.quoted", j, "pieces are appended until the value ends with its closing quote (any number of `;` inside the quotes)")
+        else:
+            chk.violation("C19.cd.quoted", j, K.short(j), "while parts and not is_quoted(_value.rstrip()): _value = f'{_value};{parts.pop(0)}'",
+                          "a quoted filename is re-joined with exactly one following piece: `filename=\"a;b;c.txt\"` (two semicolons inside the quotes) fails to parse, the whole Content-Disposition is dropped with a warning and the form field loses its name and filename")
+    # ---- C19.lookahead.cancel: a value taken before a further wait survives the interruption of that wait ------------------------------------------
+    bp = repo.cls(MP, "BodyPartReader")
+    nla = 0
+    for mname, m in bp.methods.items():
+        if not isinstance(m.node, ast.AsyncFunctionDef) or not mname.lstrip("_").startswith("read"):
+            continue
+        g = cfg_of(m.node)
+        taken = []  # (cfg node, local) : a local that holds bytes removed from the stream / from the part's own buffers
+        for n in g.nodes:
+            if n.kind == "stmt" and isinstance(n.ast, ast.Assign) and isinstance(n.ast.targets[0], ast.Name):
+                v = n.ast.value
+                from_stream = isinstance(v, ast.Await) and isinstance(v.value, ast.Call) and isinstance(v.value.func, ast.Attribute) and v.value.func.attr in READS and "self._content" in norm.raw(v.value.func.value)
+                from_buf = isinstance(v, ast.Call) and isinstance(v.func, ast.Attribute) and v.func.attr in ("popleft", "pop") and norm.raw(v.func.value).startswith("self._")
+                if from_stream or from_buf:
+                    taken.append((n, n.ast.targets[0].id))
+        waits = [n for n in g.nodes if n.kind == "stmt" and any(isinstance(a, ast.Await) and isinstance(a.value, ast.Call) and isinstance(a.value.func, ast.Attribute) and a.value.func.attr in READS and "self._content" in norm.raw(a.value.func.value)
+                                                              for a in ast.walk(n.ast)) and not K.loop_ancestors(n.ast)]
+        for w in waits:
+            for tn, loc in taken:
+                if tn is w or tn.ast is w.ast:
+                    continue
+                if g.find_path([tn], lambda x: x is w, lambda x: False, EXPLICIT) is None:
+                    continue
+                # still needed afterwards?
+                later = [x for x in ast.walk(m.node) if isinstance(x, ast.Name) and x.id == loc and isinstance(x.ctx, ast.Load) and x.lineno > w.ast.lineno]
+                if not later:
+                    continue
+                nla += 1
+                hs = [h for _t, h in K.enclosing_try_handlers(w.ast) if h.type is None or {"BaseException", "asyncio.CancelledError"} & set(PC.handler_types(h))]
+                if any(isinstance(h.body[-1], ast.Raise) and any(isinstance(x, ast.Name) and x.id == loc for x in ast.walk(h)) for h in hs):
+                    chk.ok("C19.lookahead.cancel", w.ast, f"BodyPartReader.{mname}(): `{loc}` (already taken) is put back when the look-ahead wait is interrupted")
+                else:
+                    chk.violation("C19.lookahead.cancel", w.ast, K.short(w.ast, 60), f"except BaseException: self._unread.appendleft({loc}); raise",
+                                  f"BodyPartReader.{mname}() holds `{loc}` (removed from the stream) while it waits for the next read; when that wait is interrupted (asyncio.wait_for timing out) `{loc}` is dropped and the next call continues after it")
+    chk.expect_count("C19.lookahead.cancel", nla, 1, "look-ahead waits of BodyPartReader read methods that hold data")
+    # ---- C19.window: bytes held back by read_chunk() are seen by every other way of reading the part ---------------------------------------------
+    holders = {mname for mname, m in bp.methods.items() if mname != "__init__" and any(isinstance(a, (ast.Assign, ast.AugAssign)) and any(norm.raw(t) == "self._prev_chunk" for t in (a.targets if isinstance(a, ast.Assign) else [a.target])) for a in ast.walk(m.node))}
+    nw = 0
+    for mname, m in bp.methods.items():
+        direct = [a for a in prog.awaits_in(m.node) if isinstance(a.value, ast.Call) and isinstance(a.value.func, ast.Attribute) and a.value.func.attr in READS and norm.raw(a.value.func.value) == "self._content"]
+        if not direct:
+            continue
+        nw += 1
+        fronts = any(norm.raw(c.func) in {f"self.{h}" for h in holders} for c in prog.calls_in(m.node))  # the front end of the windowed reader itself
+        if mname in holders or fronts or "self._prev_chunk" in norm.raw(m.node):
+            chk.ok("C19.window", m, f"BodyPartReader.{mname}() reads the stream and accounts for the window read_chunk() keeps in _prev_chunk")
+            continue
+        # a reader that never coexists with the window: selected by the part's fixed Content-Length
+        sites = [c for mm in bp.methods.values() for c in prog.calls_in(mm.node) if norm.raw(c.func) == f"self.{mname}"]
+        if sites and all(any("self._length" in l.text for cl in PC.pc(c, raw=True) for l in cl) for c in sites):
+            chk.ok("C19.window", m, f"BodyPartReader.{mname}() is used only for parts with a Content-Length, which never fill _prev_chunk")
+        else:
+            chk.violation("C19.window", m, f"BodyPartReader.{mname}", "if self._prev_chunk is not None: self._content.unread_data(self._prev_chunk); self._prev_chunk = None",
+                          f"BodyPartReader.{mname}() reads the stream directly while read_chunk() may hold the previous window in _prev_chunk (taken from the stream, not yet returned): mixing read_chunk() and {mname}() skips those bytes and returns them later, out of order")
+    chk.expect_count("C19.window", nw, 3, "BodyPartReader methods that read the underlying stream")
 
 
 def hunt2_rules(chk, repo):
